@@ -194,8 +194,9 @@ def flush (t : Tree) : Res Tree :=
 
 /-! ### which code is being modelled
 
-  Three repairs of `src/window.c` are proposed for this property (fixes/C14_*.patch).  The model follows the code
-  as it is in the working tree: `Gen/WinInputCfg.lean` (extractor) says which of the repairs are present. -/
+  Three repairs of `src/window.c` were made for this property (fixes/C14_*.patch, now in /repo).  The model follows
+  the code as it is in the working tree: `Gen/WinInputCfg.lean` (extractor) says which of them are present, so that
+  a tree in which one of them is undone is still modelled faithfully (and then fails the specification). -/
 
 structure Cfg where
   /-- `_ref_children` / `_unref_children`: the sibling loops walk a counted snapshot and skip closed children. -/
@@ -208,10 +209,10 @@ structure Cfg where
   shown : Bool
 deriving Repr, DecidableEq, Inhabited
 
-/-- The code as it was when the property was written. -/
+/-- The code before the three repairs. -/
 def Cfg.legacy : Cfg := ⟨false, false, false⟩
+/-- The code as it is now. -/
 def Cfg.repaired : Cfg := ⟨true, true, true⟩
-
 
 /-- `_purge_hierarchy_changes(win)` (called by `tickit_window_close` and `tickit_window_destroy` for a window that
     still has a parent) forgets a drag source that is `win` or lies below it.  A drag source is only ever stored
@@ -234,11 +235,15 @@ def preorder (t : Tree) : Nat → Id → List Id
     | some w => win :: w.children.flatMap (preorder t f)
 
 /-- `tickit_window_unref` with the DESTROY events logged. -/
-def unrefLogged (cfg : Cfg) (st : St) (win : Id) : Res St := do
+def unrefLogged (st : St) (win : Id) : Res St := do
+  let w ← get st.tree win
   let t ← WinTree.unref (fun t _ => pure t) (destroyFuel st.tree) st.tree win
-  let t := normalizeDrag t
-  let gone := (preorder st.tree (treeFuel st.tree) win).filter fun i => isAlive st.tree i && !isAlive t i
-  pure (gone.foldl (fun st i => st.say (.destroyed i)) { st with tree := t })
+  if w.refcount = 1 then
+    -- that was the last reference: the window, and whatever it took along, is gone
+    let t := normalizeDrag t
+    let gone := (preorder st.tree (treeFuel st.tree) win).filter fun i => isAlive st.tree i && !isAlive t i
+    pure (gone.foldl (fun st i => st.say (.destroyed i)) { st with tree := t })
+  else pure { st with tree := t }
 
 def refWin (st : St) (win : Id) : Res St := do
   let t ← WinTree.ref st.tree win
@@ -256,13 +261,13 @@ def allowed (st : St) (a : Action) : Bool :=
     | .raise | .raiseFront | .lower | .lowerBack | .focus => attached t (treeFuel t) a.win
     | _ => true
 
-def doAction (cfg : Cfg) (st : St) (a : Action) : Res St :=
+def doAction (st : St) (a : Action) : Res St :=
   if !allowed st a then pure (st.say (.refused a)) else
   let t := st.tree
   let f := treeFuel t
   match a.act with
   | .close => do let t ← WinTree.close t f a.win; pure { st with tree := normalizeDrag t }
-  | .unref => unrefLogged cfg { st with owned := st.owned.setIfInBounds a.win (st.owned.getD a.win 0 - 1) } a.win
+  | .unref => unrefLogged { st with owned := st.owned.setIfInBounds a.win (st.owned.getD a.win 0 - 1) } a.win
   | .keep => do let t ← WinTree.ref t a.win; pure { st with tree := t, owned := st.owned.setIfInBounds a.win (st.owned.getD a.win 0 + 1) }
   | .hide => do let t ← WinTree.hide t f a.win; pure { st with tree := t }
   | .unhide => do let t ← WinTree.show t f a.win; pure { st with tree := t }
@@ -274,40 +279,43 @@ def doAction (cfg : Cfg) (st : St) (a : Action) : Res St :=
   | .stealOn => do let t ← modify t a.win (fun w => { w with stealInput := true }); pure { st with tree := t }
   | .stealOff => do let t ← modify t a.win (fun w => { w with stealInput := false }); pure { st with tree := t }
 
-def doActions (cfg : Cfg) (st : St) : List Action → Res St
+def doActions (st : St) : List Action → Res St
   | [] => pure st
   | a :: rest => do
-    let st ← doAction cfg st a
-    doActions cfg st rest
+    let st ← doAction st a
+    doActions st rest
 
 /-! ### `run_events_whilefalse` -/
 
 def entryIndex (b : Binding) : Nat := if b.count < b.entries.length then b.count else b.entries.length - 1
 
+/-- The entry a binding uses on its next invocation. -/
+def Binding.entry (b : Binding) : Entry := b.entries.getD (entryIndex b) { ret := false }
+
 /-- Run the bindings with the given indices into `st.binds` until one claims. -/
-def runBindings (cfg : Cfg) (st : St) (kind : Kind) (win : Id) (ev : Ev) : List Nat → Res (St × Bool)
+def runBindings (st : St) (kind : Kind) (win : Id) (ev : Ev) : List Nat → Res (St × Bool)
   | [] => pure (st, false)
   | bi :: rest =>
     match st.binds[bi]? with
-    | none => runBindings cfg st kind win ev rest
+    | none => runBindings st kind win ev rest
     | some b =>
-      let ei := entryIndex b
-      let e := b.entries.getD ei { ret := false }
+      let e := b.entry
       let st := { st with binds := st.binds.setIfInBounds bi { b with count := b.count + 1 } }
-      let st := st.say (.call kind win b.idx ei e.ret ev)
+      let st := st.say (.call kind win b.idx (entryIndex b) e.ret ev)
       do
-        let st ← doActions cfg st e.actions
-        if e.ret then pure (st, true) else runBindings cfg st kind win ev rest
+        let st ← doActions st e.actions
+        if e.ret then pure (st, true) else runBindings st kind win ev rest
 
 /-- The indices of the bindings of `win` for `kind`, in binding order. -/
-def bindingsOf (st : St) (kind : Kind) (win : Id) : List Nat :=
-  (List.range st.binds.size).filter fun i =>
-    match st.binds[i]? with
+def bindingsOf (binds : Array Binding) (kind : Kind) (win : Id) : List Nat :=
+  (List.range binds.size).filter fun i =>
+    match binds[i]? with
     | some b => b.win = win && b.kind = kind
     | none => false
 
-def runHandlers (cfg : Cfg) (st : St) (kind : Kind) (win : Id) (ev : Ev) : Res (St × Bool) :=
-  runBindings cfg (st.say (.offer kind win ev)) kind win ev (bindingsOf st kind win)
+/-- `run_events_whilefalse(win, ev, info)`: the event is offered to `win`. -/
+def runHandlers (st : St) (kind : Kind) (win : Id) (ev : Ev) : Res (St × Bool) :=
+  runBindings (st.say (.offer kind win ev)) kind win ev (bindingsOf st.binds kind win)
 
 /-- `_is_shown(win)`. -/
 def isShown (t : Tree) : Nat → Id → Res Bool
@@ -338,17 +346,17 @@ def refAll (st : St) : List Id → Res St
     refAll st cs
 
 /-- `_unref_children`. -/
-def unrefAll (cfg : Cfg) (st : St) : List Id → Res St
+def unrefAll (st : St) : List Id → Res St
   | [] => pure st
   | c :: cs => do
-    let st ← unrefLogged cfg st c
-    unrefAll cfg st cs
+    let st ← unrefLogged st c
+    unrefAll st cs
 
 /-! ### `_handle_key` -/
 
 /-- `done: tickit_window_unref(win); return ret;` -/
-def keyDone (cfg : Cfg) (st : St) (win : Id) (ret : Bool) : Out (St × Bool) := do
-  let st ← unrefLogged cfg st win
+def keyDone (st : St) (win : Id) (ret : Bool) : Out (St × Bool) := do
+  let st ← unrefLogged st win
   pure (st, ret)
 
 mutual
@@ -366,29 +374,29 @@ def handleKey (cfg : Cfg) : Nat → St → Id → Ev → Out (St × Bool)
       | some fc => do
         let fw ← get st.tree fc
         if fw.stealInput then handleKey cfg f st fc ev else pure (st, false)
-    if done then keyDone cfg st win true else
+    if done then keyDone st win true else
     -- if(win->focused_child) if(_handle_key(win->focused_child, info)) goto done;
     let w ← get st.tree win
     let (st, done) ← match w.focusedChild with
       | none => (pure (st, false) : Out (St × Bool))
       | some fc => handleKey cfg f st fc ev
-    if done then keyDone cfg st win true else
+    if done then keyDone st win true else
     -- if(run_events_whilefalse(win, TICKIT_WINDOW_ON_KEY, info)) goto done;
     let own ← ownVisible cfg st.tree win
-    let (st, done) ← if own then (runHandlers cfg st .key win ev : Out (St × Bool)) else pure (st, false)
-    if done then keyDone cfg st win true else
+    let (st, done) ← if own then (runHandlers st .key win ev : Out (St × Bool)) else pure (st, false)
+    if done then keyDone st win true else
     let w ← get st.tree win
     if cfg.snapshot then do
       -- children = snapshot with a reference each; walk it; drop the references
       let cs := w.children
       let st ← refAll st cs
       let (st, done) ← keySnap cfg f st win cs ev
-      let st ← unrefAll cfg st cs
-      keyDone cfg st win done
+      let st ← unrefAll st cs
+      keyDone st win done
     else do
       -- for(child = win->first_child; child; child = next) …
       let (st, done) ← keyLoop cfg f st win w.children.head? ev
-      keyDone cfg st win done
+      keyDone st win done
 
 /-- The "other children" loop of `_handle_key` before the repair; `child` is the loop variable. -/
 def keyLoop (cfg : Cfg) : Nat → St → Id → Option Id → Ev → Out (St × Bool)
@@ -419,13 +427,17 @@ end
 
 /-! ### `_handle_mouse` -/
 
-/-- `done: tickit_window_unref(win); return ret;` -/
+/-- `done:` of `_handle_mouse`. -/
 def mouseDone (cfg : Cfg) (st : St) (win : Id) (ret : Option Id) : Out (St × Option Id) := do
-  -- if(win->is_closed || win->refcount == 1) ret = NULL;   (not with the counted return)
+  -- if(win->is_closed || win->refcount == 1) ret = NULL;   (the rule of 443f8da; gone with the counted return)
   let w ← get st.tree win
   let ret := if !cfg.counted && (w.isClosed || w.refcount = 1) then none else ret
-  let st ← unrefLogged cfg st win
+  let st ← unrefLogged st win
   pure (st, ret)
+
+/-- Is the cell `(line, col)` (in the parent's coordinates) outside the child's rectangle? -/
+def outsideChild (cw : Win) (line col : Int) : Bool :=
+  line - cw.rect.top < 0 || line - cw.rect.top ≥ cw.rect.lines || col - cw.rect.left < 0 || col - cw.rect.left ≥ cw.rect.cols
 
 mutual
 /-- `_handle_mouse(win, info)`: the window that handled the event, or NULL (a counted reference after the repair). -/
@@ -441,14 +453,14 @@ def handleMouse (cfg : Cfg) : Nat → St → Id → Ev → Out (St × Option Id)
         let cs := w.children
         let st ← refAll st cs
         let (st, r) ← mouseSnap cfg f st win cs ev
-        let st ← unrefAll cfg st cs
+        let st ← unrefAll st cs
         (pure (st, r) : Out (St × Option Id))
       else mouseLoop cfg f st w.children.head? ev
     match r with
     | some h => mouseDone cfg st win (some h)
     | none => do
       let own ← ownVisible cfg st.tree win
-      let (st, done) ← if own then (runHandlers cfg st .mouse win ev : Out (St × Bool)) else pure (st, false)
+      let (st, done) ← if own then (runHandlers st .mouse win ev : Out (St × Bool)) else pure (st, false)
       if done then do
         let st ← if cfg.counted then refWin st win else pure st      -- ret = tickit_window_ref(win)
         mouseDone cfg st win (some win)
@@ -464,12 +476,10 @@ def mouseLoop (cfg : Cfg) : Nat → St → Option Id → Ev → Out (St × Optio
     else pure ()
     let next ← nextSibling st.tree child          -- next = child->next
     let cw ← get st.tree child
-    let cl := ev.line - cw.rect.top
-    let cc := ev.col - cw.rect.left
-    if !cw.stealInput && (cl < 0 || cl ≥ cw.rect.lines || cc < 0 || cc ≥ cw.rect.cols) then
+    if !cw.stealInput && outsideChild cw ev.line ev.col then
       mouseLoop cfg f st next ev
     else do
-      let (st, r) ← handleMouse cfg f st child { ev with line := cl, col := cc }
+      let (st, r) ← handleMouse cfg f st child { ev with line := ev.line - cw.rect.top, col := ev.col - cw.rect.left }
       match r with
       | some h => pure (st, some h)
       | none => mouseLoop cfg f st next ev
@@ -481,12 +491,10 @@ def mouseSnap (cfg : Cfg) : Nat → St → Id → List Id → Ev → Out (St × 
   | f + 1, st, win, child :: rest, ev => do
     let cw ← get st.tree child
     if cw.parent ≠ some win then mouseSnap cfg f st win rest ev else    -- closed by a handler in the meantime
-    let cl := ev.line - cw.rect.top
-    let cc := ev.col - cw.rect.left
-    if !cw.stealInput && (cl < 0 || cl ≥ cw.rect.lines || cc < 0 || cc ≥ cw.rect.cols) then
+    if !cw.stealInput && outsideChild cw ev.line ev.col then
       mouseSnap cfg f st win rest ev
     else do
-      let (st, r) ← handleMouse cfg f st child { ev with line := cl, col := cc }
+      let (st, r) ← handleMouse cfg f st child { ev with line := ev.line - cw.rect.top, col := ev.col - cw.rect.left }
       match r with
       | some h => pure (st, some h)
       | none => mouseSnap cfg f st win rest ev
@@ -504,12 +512,12 @@ def onTermKey (cfg : Cfg) (fuel : Nat) (st : St) (ev : Ev) : Out (St × Bool) :=
 /-- Drop the counted reference a `_handle_mouse` call returned (after the repair). -/
 def dropResult (cfg : Cfg) (st : St) (r : Option Id) : Res St :=
   match r with
-  | some h => if cfg.counted then unrefLogged cfg st h else pure st
+  | some h => if cfg.counted then unrefLogged st h else pure st
   | none => pure st
 
-/-- What `on_term_mouse` does with the window that claimed DRAG_START: before the repair the (possibly dangling)
-    pointer is stored as it is; after it, it is stored only if the window is still below the root, and the counted
-    reference is dropped (which may destroy the window, and then `close` forgets it again). -/
+/-- What `on_term_mouse` does with the window that claimed DRAG_START: before the repair the pointer is stored as
+    it is; after it, it is stored only if the window is still below the root, and the counted reference is dropped
+    (which may destroy the window; `_purge_hierarchy_changes` then forgets it again). -/
 def dragSourceSet (cfg : Cfg) (st : St) (src : Option Id) : Res St :=
   let setSrc (st : St) (v : Option Id) : St := { st with tree := { st.tree with root := { st.tree.root with dragSource := v } } }
   if !cfg.counted then pure (setSrc st src) else
@@ -517,7 +525,7 @@ def dragSourceSet (cfg : Cfg) (st : St) (src : Option Id) : Res St :=
   | none => pure (setSrc st none)
   | some s =>
     let st := setSrc st (if isWithin st.tree (treeFuel st.tree) 0 s then some s else none)
-    unrefLogged cfg st s
+    unrefLogged st s
 
 /-- The use of `root->drag_source_window` for DRAG_STOP / DRAG_OUTSIDE: geometry, then dispatch. -/
 def toDragSource (cfg : Cfg) (fuel : Nat) (st : St) (src : Id) (type : Int) (ev : Ev) : Out St := do
@@ -528,25 +536,28 @@ def toDragSource (cfg : Cfg) (fuel : Nat) (st : St) (src : Id) (type : Int) (ev 
   let (st, r) ← handleMouse cfg fuel st src { type := type, button := ev.button, line := ev.line - geom.top, col := ev.col - geom.left }
   dropResult cfg st r
 
+/-- The synthesised events that precede the event itself. -/
+def dragPrelude (cfg : Cfg) (fuel : Nat) (st : St) (ev : Ev) : Out St :=
+  let root := st.tree.root
+  if ev.type = evPress then
+    pure { st with tree := { st.tree with root := { root with mouseLastButton := ev.button, mouseLastLine := ev.line, mouseLastCol := ev.col } } }
+  else if ev.type = evDrag && !root.mouseDragging then do
+    let (st, src) ← handleMouse cfg fuel st 0 { type := evDragStart, button := root.mouseLastButton, line := root.mouseLastLine, col := root.mouseLastCol }
+    let st ← dragSourceSet cfg st src
+    pure { st with tree := { st.tree with root := { st.tree.root with mouseDragging := true } } }
+  else if ev.type = evRelease && root.mouseDragging then do
+    let (st, dropped) ← handleMouse cfg fuel st 0 { type := evDragDrop, button := ev.button, line := ev.line, col := ev.col }
+    let st ← dropResult cfg st dropped
+    let st ← match st.tree.root.dragSource with
+      | none => (pure st : Out St)
+      | some src => toDragSource cfg fuel st src evDragStop ev
+    pure { st with tree := { st.tree with root := { st.tree.root with mouseDragging := false } } }
+  else pure st
+
 /-- `on_term_mouse`. -/
 def onTermMouse (cfg : Cfg) (fuel : Nat) (st : St) (ev : Ev) : Out (St × Bool) := do
   let st ← refWin st 0                 -- tickit_window_ref(win): the root is needed between the dispatches
-  let root := st.tree.root
-  let st ←
-    if ev.type = evPress then
-      (pure { st with tree := { st.tree with root := { root with mouseLastButton := ev.button, mouseLastLine := ev.line, mouseLastCol := ev.col } } } : Out St)
-    else if ev.type = evDrag && !root.mouseDragging then do
-      let (st, src) ← handleMouse cfg fuel st 0 { type := evDragStart, button := root.mouseLastButton, line := root.mouseLastLine, col := root.mouseLastCol }
-      let st ← dragSourceSet cfg st src
-      pure { st with tree := { st.tree with root := { st.tree.root with mouseDragging := true } } }
-    else if ev.type = evRelease && root.mouseDragging then do
-      let (st, dropped) ← handleMouse cfg fuel st 0 { type := evDragDrop, button := ev.button, line := ev.line, col := ev.col }
-      let st ← dropResult cfg st dropped
-      let st ← match st.tree.root.dragSource with
-        | none => (pure st : Out St)
-        | some src => toDragSource cfg fuel st src evDragStop ev
-      pure { st with tree := { st.tree with root := { st.tree.root with mouseDragging := false } } }
-    else pure st
+  let st ← dragPrelude cfg fuel st ev
   let (st, handled) ← handleMouse cfg fuel st 0 ev
   let st ←
     match st.tree.root.dragSource with
@@ -555,7 +566,7 @@ def onTermMouse (cfg : Cfg) (fuel : Nat) (st : St) (ev : Ev) : Out (St × Bool) 
       else (pure st : Out St)
     | none => pure st
   let st ← dropResult cfg st handled
-  let st ← unrefLogged cfg st 0        -- tickit_window_unref(win)
+  let st ← unrefLogged st 0            -- tickit_window_unref(win)
   pure (st, handled.isSome)
 
 /-- `tickit_term_emit_key`: the root window's binding, then the application's own. -/
@@ -581,7 +592,7 @@ def newWin (st : St) (parent : Id) (rect : Rect) (rootParent hidden lowest steal
   pure ({ st with tree := t, owned := st.owned.push 1 }, id)
 
 def addBinding (st : St) (win : Id) (kind : Kind) (entries : List Entry) : St × Nat :=
-  let idx := (bindingsOf st kind win).length
+  let idx := (bindingsOf st.binds kind win).length
   ({ st with binds := st.binds.push { win := win, kind := kind, idx := idx, entries := entries } }, idx)
 
 def flushSt (st : St) : Res St := do
@@ -589,11 +600,6 @@ def flushSt (st : St) : Res St := do
   pure { st with tree := t }
 
 /-! ### specification vocabulary: the reference offer orders of the property text -/
-
-def winVisible (t : Tree) (id : Id) : Bool :=
-  match t.wins[id]? with
-  | some w => !w.freed && w.isVisible
-  | none => false
 
 /-- `id` is live and visible, and so is every window on its parent chain. -/
 def visibleChain (t : Tree) : Nat → Id → Bool
@@ -607,49 +613,49 @@ def visibleChain (t : Tree) : Nat → Id → Bool
         | none => true
         | some p => visibleChain t f p
 
-/-- The windows a key event is offered to below and including `win`, in order, *as the code visits them*
-    (a stealing first child is visited by the steal rule and again by the loop over the children):
-    stealing front-most child, focus chain innermost first, the window itself, the other children. -/
-def keyVisits (t : Tree) : Nat → Id → List Id
-  | 0, _ => []
+/-- The windows a key event is offered to below and including `win` (whose ancestors are taken to be visible), in
+    order, *as the code visits them* (a stealing first child is visited by the steal rule and again by the loop
+    over the children): stealing front-most child, focus chain innermost first, the window itself, the other
+    children.  `none`: out of fuel. -/
+def keyVisits (t : Tree) : Nat → Id → Option (List Id)
+  | 0, _ => none
   | f + 1, win =>
     match t.wins[win]? with
-    | none => []
+    | none => some []
     | some w =>
-      if w.freed || !w.isVisible then [] else
-      let steal := match w.children.head? with
+      if w.freed || !w.isVisible then some [] else do
+      let steal ← match w.children.head? with
         | some fc => (match t.wins[fc]? with
-          | some fw => if fw.stealInput then keyVisits t f fc else []
-          | none => [])
-        | none => []
-      let foc := match w.focusedChild with
+          | some fw => if fw.stealInput then keyVisits t f fc else some []
+          | none => some [])
+        | none => some []
+      let foc ← match w.focusedChild with
         | some fc => keyVisits t f fc
-        | none => []
-      let rest := (w.children.filter (fun c => w.focusedChild ≠ some c)).flatMap (keyVisits t f)
-      steal ++ foc ++ [win] ++ rest
+        | none => some []
+      let rest ← (w.children.filter (fun c => w.focusedChild ≠ some c)).mapM (keyVisits t f)
+      pure (steal ++ foc ++ [win] ++ rest.flatten)
 
 /-- The reference offer order for a key event: first occurrences of `keyVisits`. -/
-def keyOrder (t : Tree) (fuel : Nat) (win : Id) : List Id := (keyVisits t fuel win).eraseDups
+def keyOrder (t : Tree) (fuel : Nat) (win : Id) : Option (List Id) := (keyVisits t fuel win).map List.eraseDups
 
 /-- Is the cell inside the child's rectangle (cell in the parent's coordinates)? -/
-def inChild (cw : Win) (line col : Int) : Bool :=
-  decide (0 ≤ line - cw.rect.top) && decide (line - cw.rect.top < cw.rect.lines)
-    && decide (0 ≤ col - cw.rect.left) && decide (col - cw.rect.left < cw.rect.cols)
+def inChild (cw : Win) (line col : Int) : Bool := !outsideChild cw line col
 
 /-- The windows a mouse event at `(line, col)` (in `win`'s coordinates) is offered to below and including `win`,
     with the position each of them is given: front-most children under the pointer (or stealing) first, depth first,
     then the window itself. -/
-def mouseVisits (t : Tree) : Nat → Id → Int → Int → List (Id × Int × Int)
-  | 0, _, _, _ => []
+def mouseVisits (t : Tree) : Nat → Id → Int → Int → Option (List (Id × Int × Int))
+  | 0, _, _, _ => none
   | f + 1, win, line, col =>
     match t.wins[win]? with
-    | none => []
+    | none => some []
     | some w =>
-      if w.freed || !w.isVisible then [] else
-      (w.children.flatMap fun c =>
+      if w.freed || !w.isVisible then some [] else do
+      let below ← w.children.mapM fun c =>
         match t.wins[c]? with
-        | some cw => if cw.stealInput || inChild cw line col then mouseVisits t f c (line - cw.rect.top) (col - cw.rect.left) else []
-        | none => []) ++ [(win, line, col)]
+        | some cw => if cw.stealInput || inChild cw line col then mouseVisits t f c (line - cw.rect.top) (col - cw.rect.left) else some []
+        | none => some []
+      pure (below.flatten ++ [(win, line, col)])
 
 /-- The windows of the subtree of `win` (through the children lists). -/
 def subtree (t : Tree) : Nat → Id → List Id
